@@ -287,12 +287,12 @@ fn main() {
                 "word" => scenario_word(v[0] as u16, true),
                 "bits" => scenario_bits(v[0] as u32, v[1] as u8, v[2] as u8, true),
                 "stream1" | "stream2" => scenario_stream(if name == "stream1" { 1 } else { 2 }, [v[0] as u8, v[1] as u8, v[2] as u8, v[3] as u8], v[4] as u8, true),
-                "events" | "events_mods" | "events_decode" => scenario_events_aspect(
+                "events" | "events_mods" | "events_decode" | "events_values" | "events_values_all" => scenario_events_aspect(
                     [v[0] as u8, v[1] as u8, v[2] as u8],
                     [v[3] as u8, v[4] as u8, v[5] as u8],
                     v[6] as u8,
                     v[7] as u8,
-                    if name == "events_mods" { 1 } else if name == "events_decode" { 2 } else { 3 },
+                    if name == "events_mods" { 1 } else if name == "events_decode" { 2 } else if name == "events_values" { 6 } else if name == "events_values_all" { 7 } else { 3 },
                     true,
                 ),
                 "switching" => scenario_switching([v[0] as u8, v[1] as u8, v[2] as u8], [v[3] as u8, v[4] as u8, v[5] as u8], v[6] as u8, v[7] as u8, v[8] as u8, v[9] != 0, true),
